@@ -2,6 +2,10 @@ use std::{
     future::{Future, poll_fn},
     io,
     pin::{Pin, pin},
+    sync::{
+        Arc,
+        atomic::{AtomicBool, Ordering},
+    },
     task::{Context, Poll},
 };
 
@@ -35,6 +39,9 @@ pub struct SendStream {
     conn: ConnectionRef,
     stream: StreamId,
     is_0rtt: bool,
+    /// Set by a successful [`reset()`](Self::reset); shared with the futures returned by
+    /// [`stopped()`](Self::stopped). Only accessed while the connection is locked.
+    locally_reset: Arc<AtomicBool>,
 }
 
 impl SendStream {
@@ -43,6 +50,7 @@ impl SendStream {
             conn,
             stream,
             is_0rtt,
+            locally_reset: Arc::new(AtomicBool::new(false)),
         }
     }
 
@@ -210,6 +218,12 @@ impl SendStream {
             return Ok(());
         }
         conn.inner.send_stream(self.stream).reset(error_code)?;
+        // The peer can neither stop a reset stream nor read it to completion, and nothing is
+        // reported when the reset is acknowledged: complete pending `stopped` futures now
+        self.locally_reset.store(true, Ordering::Relaxed);
+        if let Some(notify) = conn.stopped.remove(&self.stream) {
+            notify.notify_waiters();
+        }
         conn.wake();
         Ok(())
     }
@@ -237,8 +251,9 @@ impl SendStream {
     ///
     /// Yields `Some` with the stop error code if the peer stops the stream. Yields `None` if the
     /// local side [`finish()`](Self::finish)es the stream and then the peer acknowledges receipt
-    /// of all stream data (although not necessarily the processing of it), after which the peer
-    /// closing the stream is no longer meaningful.
+    /// of all stream data (although not necessarily the processing of it), or if the local side
+    /// [`reset()`](Self::reset)s the stream, after which the peer closing the stream is no longer
+    /// meaningful.
     ///
     /// For a variety of reasons, the peer may not send acknowledgements immediately upon receiving
     /// data. As such, relying on `stopped` to know when the peer has read a stream to completion
@@ -252,6 +267,7 @@ impl SendStream {
         let conn = self.conn.clone();
         let stream = self.stream;
         let is_0rtt = self.is_0rtt;
+        let locally_reset = self.locally_reset.clone();
         async move {
             loop {
                 // The `Notify::notified` future needs to be created while the lock is being held,
@@ -265,6 +281,9 @@ impl SendStream {
                     let mut conn = conn.state.lock("SendStream::stopped");
                     if let Some(output) = send_stream_stopped(&mut conn, stream, is_0rtt) {
                         return output;
+                    }
+                    if locally_reset.load(Ordering::Relaxed) {
+                        return Ok(None);
                     }
 
                     notify = conn.stopped.entry(stream).or_default().clone();
